@@ -6,6 +6,7 @@ import (
 	"encoding/json"
 	"fmt"
 	"io"
+	"regexp"
 	"slices"
 
 	"github.com/dpb587/rdfkit-go/encoding"
@@ -190,32 +191,16 @@ func (e *Encoder) buildResource(builder *rdfdescription.ResourceListBuilder, res
 					"@id": "_:" + e.bnStringProvider.GetBlankNodeString(obj),
 				}
 			case rdf.Literal:
-				switch obj.Datatype {
-				case xsdiri.String_Datatype:
+				switch {
+				case obj.Datatype == xsdiri.String_Datatype:
 					statementObject = obj.LexicalForm
-				case xsdiri.Integer_Datatype, xsdiri.Double_Datatype:
-					// TODO avoid number overflow
+				case obj.Datatype == xsdiri.Integer_Datatype && isNativeInteger(obj.LexicalForm),
+					obj.Datatype == xsdiri.Double_Datatype && isNativeDouble(obj.LexicalForm):
 					statementObject = json.Number(obj.LexicalForm)
-				case xsdiri.Boolean_Datatype:
-					switch obj.LexicalForm {
-					case "true":
-						statementObject = true
-					case "false":
-						statementObject = false
-					default:
-						pr, ok := e.prefixes.CompactPrefix(string(obj.Datatype))
-						if ok {
-							statementObject = map[string]any{
-								"@value": obj.LexicalForm,
-								"@type":  pr.String(),
-							}
-						} else {
-							statementObject = map[string]any{
-								"@value": obj.LexicalForm,
-								"@type":  string(obj.Datatype),
-							}
-						}
-					}
+				case obj.Datatype == xsdiri.Boolean_Datatype && obj.LexicalForm == "true":
+					statementObject = true
+				case obj.Datatype == xsdiri.Boolean_Datatype && obj.LexicalForm == "false":
+					statementObject = false
 				default:
 					pr, ok := e.prefixes.CompactPrefix(string(obj.Datatype))
 					if ok {
@@ -305,4 +290,23 @@ func (e *Encoder) buildResource(builder *rdfdescription.ResourceListBuilder, res
 	}
 
 	return graphItem
+}
+
+var (
+	reNativeInteger = regexp.MustCompile(`^-?(0|[1-9][0-9]{0,14})$`)
+	reNativeDouble  = regexp.MustCompile(`^-?(0|[1-9][0-9]*)(\.[0-9]+)?([eE][+-]?[0-9]{1,2})?$`)
+)
+
+// isNativeInteger reports whether the lexical form of an xsd:integer can be written as a JSON number
+// and read back as the same integer: JSON number syntax (no sign '+', no leading zeros) and few enough
+// digits to be exact in an IEEE 754 double.
+func isNativeInteger(lexicalForm string) bool {
+	return reNativeInteger.MatchString(lexicalForm)
+}
+
+// isNativeDouble reports whether the lexical form of an xsd:double can be written as a JSON number:
+// JSON number syntax (excludes INF, NaN, a leading '+' or '.') and short enough to be finite for
+// every reader (at most 30 characters, at most two exponent digits).
+func isNativeDouble(lexicalForm string) bool {
+	return len(lexicalForm) <= 30 && reNativeDouble.MatchString(lexicalForm)
 }
